@@ -1,6 +1,7 @@
 package main
 
 import (
+	"os"
 	"fmt"
 	"go/token"
 	"go/types"
@@ -254,27 +255,83 @@ func c04ElemComplete(p *Prog, r *Report) {
 			}
 			return false
 		}
+		// listLevelAt: on this way the expression is known to be of a list-level kind — a type whose own Resolve hands a
+		// list of sub-values back to this converter (In): it receives the list type and takes the variadic list apart itself
+		listLevelAt := func(gs []Guard) bool {
+			for _, g := range gs {
+				ex, ok := g.Cond.(*ssa.Extract)
+				if !ok || ex.Index != 1 || !g.Pol {
+					continue
+				}
+				ta, ok := ex.Tuple.(*ssa.TypeAssert)
+				if !ok || !ta.CommaOk {
+					continue
+				}
+				res := p.SSA.LookupMethod(ta.AssertedType, f.Pkg.Pkg, "Resolve")
+				if res == nil || res.Blocks == nil {
+					continue
+				}
+				calls := false
+				eachInstr(res, func(j ssa.Instruction) {
+					if c := callCommon(j); c != nil && staticCallee(c) == f {
+						calls = true
+					}
+				})
+				if calls {
+					return true
+				}
+			}
+			return false
+		}
 		eachInstr(f, func(i ssa.Instruction) {
 			cl, ok := i.(*ssa.Call)
 			if !ok {
 				return
 			}
 			cal := staticCallee(cl.Common())
-			if cal == nil || !strings.HasPrefix(pkgPathOf(cal), Mod) {
+			calName := ""
+			switch {
+			case cal != nil && strings.HasPrefix(pkgPathOf(cal), Mod):
+				calName = shortName(cal)
+			case cl.Call.IsInvoke() && cl.Call.Method.Pkg() != nil && strings.HasPrefix(cl.Call.Method.Pkg().Path(), Mod):
+				calName = cl.Call.Method.Name()
+			default:
 				return
 			}
+			// the declared types handed over: arguments of type reflect.Type, and the elements of a []reflect.Type literal
+			var typeArgs []ssa.Value
 			for _, a := range cl.Call.Args {
-				if !strings.HasSuffix(a.Type().String(), "reflect.Type") {
-					continue
+				if strings.HasSuffix(a.Type().String(), "reflect.Type") && !strings.HasPrefix(a.Type().String(), "[]") {
+					typeArgs = append(typeArgs, a)
 				}
-				bad := ""
+				if sl, ok := a.(*ssa.Slice); ok && a.Type().String() == "[]reflect.Type" {
+					if al, ok := sl.X.(*ssa.Alloc); ok && al.Referrers() != nil {
+						for _, ref := range *al.Referrers() {
+							if ia, ok := ref.(*ssa.IndexAddr); ok && ia.Referrers() != nil {
+								for _, r2 := range *ia.Referrers() {
+									if st, ok := r2.(*ssa.Store); ok && st.Addr == ssa.Value(ia) {
+										typeArgs = append(typeArgs, st.Val)
+									}
+								}
+							}
+						}
+					}
+				}
+			}
+			if os.Getenv("GOOMVET_DEBUG") != "" {
+				fmt.Fprintln(os.Stderr, "C04.R7 elem-complete call", shortName(f), calName, len(typeArgs))
+			}
+			for _, a := range typeArgs {
+				type leaf struct{ shape, bad string }
+				var leaves []leaf
 				var visit func(v ssa.Value, gs []Guard, depth int)
 				visit = func(v ssa.Value, gs []Guard, depth int) {
 					v = resolveLocal(v)
-					if isElem(v) || depth > 4 {
+					if isElem(v) {
+						leaves = append(leaves, leaf{"Elem() of the last type", ""})
 						return
 					}
-					if notVariadicAt(gs) {
+					if depth > 4 {
 						return
 					}
 					switch x := v.(type) {
@@ -285,26 +342,64 @@ func c04ElemComplete(p *Prog, r *Report) {
 					case *ssa.UnOp:
 						ia, ok := x.X.(*ssa.IndexAddr)
 						if !ok {
-							bad = "a type of unknown provenance"
+							if !notVariadicAt(gs) {
+								leaves = append(leaves, leaf{"unknown", "a type of unknown provenance"})
+							}
 							return
 						}
-						if notVariadicAt(guardsAt(ia.Block())) {
+						it := k.TermOf(ia.Index)
+						shape := "types[i]"
+						if strings.HasPrefix(it.Var, "len(") {
+							shape = "types[len" + fmt.Sprintf("%+d", it.K) + "]"
+						}
+						if notVariadicAt(gs) || notVariadicAt(guardsAt(ia.Block())) {
+							leaves = append(leaves, leaf{shape + " when not variadic", ""})
+							return
+						}
+						if listLevelAt(gs) {
+							leaves = append(leaves, leaf{shape + " for a list-level expression", ""})
 							return
 						}
 						m := NewDBM()
 						guardsToDBM(m, k, ia.Block())
 						guardListToDBM(m, k, gs)
-						it := k.TermOf(ia.Index)
 						if !m.EntailsLE(Term{it.Var, it.K + 2}, Term{"len(" + k.Key(ia.X) + ")", 0}) {
-							bad = "types[" + termShape(it) + "] without Elem() where the position may be the last one"
+							leaves = append(leaves, leaf{shape, shape + " without Elem() where the position may be the last one"})
+						} else {
+							leaves = append(leaves, leaf{shape, ""})
 						}
 					default:
-						bad = "a type of unknown provenance"
+						if !notVariadicAt(gs) {
+							leaves = append(leaves, leaf{"unknown", "a type of unknown provenance"})
+						}
 					}
 				}
 				visit(a, guardsAt(cl.Block()), 0)
-				r.Check(bad == "", "C04.R7", "declared type handed to "+shortName(cal)+" in "+shortName(f)+" is the element type from the last position on", p.Pos(posOf(cl)), "Elem() of the last type, or a type strictly before the last, or not variadic",
-					"for a variadic function the value at the first variadic position is converted against "+bad+": it is compared with (or converted to) the slice type instead of its element type, so it never matches or is rejected")
+				if os.Getenv("GOOMVET_DEBUG") != "" {
+					fmt.Fprintln(os.Stderr, "C04.R7 leaves", shortName(f), calName, leaves)
+				}
+				if len(leaves) == 0 {
+					r.Und("C04.R7", "declared type handed to "+calName+" in "+shortName(f), p.Pos(posOf(cl)), "the provenance of the type could not be followed")
+				}
+				seenShape := map[string]bool{}
+				for _, lf := range leaves {
+					// one obligation per way the type can have been chosen; a bad way wins over a good one of the same shape
+					if seenShape[lf.shape] && lf.bad == "" {
+						continue
+					}
+					bad := lf.bad
+					for _, l2 := range leaves {
+						if l2.shape == lf.shape && l2.bad != "" {
+							bad = l2.bad
+						}
+					}
+					if seenShape[lf.shape] {
+						continue
+					}
+					seenShape[lf.shape] = true
+					r.Check(bad == "", "C04.R7", "declared type handed to "+calName+" in "+shortName(f)+" via "+lf.shape+" is the element type from the last position on", p.Pos(posOf(cl)), "Elem() of the last type, or a type strictly before the last, or not variadic",
+						"for a variadic function the value at the first variadic position is converted against "+bad+": it is compared with (or converted to) the slice type instead of its element type, so it never matches or is rejected")
+				}
 			}
 		})
 	}
